@@ -34,10 +34,7 @@ def View.empty : View :=
   { ret := .unit, net := [], sj := .missing, pj := .missing, pdir := false, arts := [], junk := [] }
 
 /-- What the code would load from `patches_state.json`. -/
-def View.ps (v : View) : PatchesState :=
-  match v.pj with
-  | .ok p => p
-  | _ => {}
+def View.ps (v : View) : PatchesState := v.pj.getD {}
 
 def View.nextNum (v : View) : Option Nat := v.ps.next.map (·.number)
 def View.lastNum (v : View) : Option Nat := v.ps.last.map (·.number)
